@@ -328,6 +328,10 @@ def gen_history(rng, nops):
                 n.uid, n.cb0 = 0, True
                 emit("UD %d 0" % h, dels=old, tag="callback_registered_with_NULL_userdata")
                 continue
+            if n.uid and rng.random() < 0.12:
+                # registered again with the very same (userdata, callback) pair: a new registration all the same -- the old one is released now, this one when the node dies
+                emit(("UD %d %d" if rng.random() < 0.4 else "SS %d %d 0") % (h, n.uid), dels=old, tag="same_userdata_and_callback_registered_again")
+                continue
             n.uid, n.cb0 = uid[0], False
             if rng.random() < 0.5:
                 emit("UD %d %d" % (h, uid[0]), dels=old)
@@ -535,6 +539,9 @@ def shard_fn(shard, nshards, seed, tier, exe, nhist):
                 dels = parse_del(ln)
                 dup = [d for d in dels if d in seen and d != 0]   # 0 = a callback registered with NULL userdata; several nodes may have one
                 seen.update(dels)
+                if e.get("tag") == "same_userdata_and_callback_registered_again":
+                    # the same pair was registered a second time by this very command: the release seen now is that of the FIRST registration, one more is due later
+                    seen.difference_update(e["dels"])
                 if dup:
                     key, what = "destroyed-twice", "uid(s) %s destroyed a second time at %r" % (dup, c)
                 elif sorted(dels) != sorted(e["dels"]):
